@@ -15,7 +15,7 @@ MIN_EVALS = {"quick": 2000, "thorough": 50000}
 RULE = (
     "seeded random cases: layout (1-3 axes, 2-6 cells) x constructor spellings (periodic bool/list/mapping; boundary, "
     "fill_value None/scalar/total/partial mapping) x one xgcm.padding.pad call with per-call spellings and asymmetric "
-    "widths 0..n per axis (axes optionally omitted), extra dims, shuffled dim order. Oracle: resolution model + "
+    "widths 0..n per axis (axes optionally omitted), extra dims, shuffled dim order; data float64 (a fifth with NaN / +-inf cells), int64 or uint64 (integer fills up to 2**63). Oracle: resolution model + "
     "hand-written wrap/constant/edge extension; interior and single-axis halo cells strict, corner cells must equal one "
     "of the sequential orders; in a third of the cases the same option objects are then used on a second grid with other settings (judged by that grid's rules); scalar vs total-mapping spellings (call and constructor) must agree bit-for-bit. Class = "
     "per-axis (rule, source of rule, lower>0, upper>0, width>=n), #axes; non-trivial iff some width > 0."
@@ -75,7 +75,9 @@ def gen_case(rng, i, tier):
             call["fill_value"] = intfill(call["fill_value"])
     return {
         "layout": layout, "ctor": ctor, "pos": pos, "dims": dims, "extra": extra,
-        "data": {"kind": "unique" if rng.random() < 0.5 else "quarter", "seed": rng.getrandbits(31), "dtype2": dtype},
+        # floating-point data may hold missing values and infinities (land points): they are values like any other
+        "data": {"kind": "unique" if rng.random() < 0.5 else "quarter", "seed": rng.getrandbits(31), "dtype2": dtype,
+                 "holes": dtype == "float64" and rng.random() < 0.2},
         "call": call, "name": "v",
     }
 
@@ -100,6 +102,11 @@ def model(desc, vals, dims, order):
     return cur
 
 
+def same(a, b):
+    """identity of values, missing values (NaN) in the same places"""
+    return np.array_equal(a, b, equal_nan=np.asarray(a).dtype.kind == "f" and np.asarray(b).dtype.kind == "f")
+
+
 KNOWN_PERIODIC_LIST = "periodic-list-unnamed-axis-stays-periodic"
 
 
@@ -117,7 +124,7 @@ def classify(desc, got, da, order, corner):
     alt = dict(desc)
     alt["ctor"] = dict(desc["ctor"], periodic=True)
     exp = model(alt, da.values, da.dims, order)
-    if got.shape == exp.shape and np.array_equal(got[~corner], exp[~corner]):
+    if got.shape == exp.shape and same(got[~corner], exp[~corner]):
         return KNOWN_PERIODIC_LIST
     return None
 
@@ -143,6 +150,14 @@ def run_case(ctx, desc):
 
     # the library is handed its own option objects (the same ones over all calls of this case, as a user's would be);
     # the model reads the descriptor
+    if desc["data"].get("holes"):
+        vals = np.array(da.values, float)
+        flat = vals.reshape(-1)
+        hr = np.random.default_rng(desc["data"]["seed"])
+        for k, v in zip(hr.integers(0, max(flat.size, 1), size=max(1, flat.size // 4)), [np.nan, np.nan, np.inf, -np.inf, np.nan] * flat.size):
+            if flat.size:
+                flat[k] = v
+        da = da.copy(data=vals)
     kw = copy.deepcopy({k: call[k] for k in ("boundary", "fill_value") if k in call})
     rules = {a: resolve.in_force(a, desc["ctor"], call) for a in bw}
     src = {}
@@ -155,7 +170,7 @@ def run_case(ctx, desc):
     ckey = [
         (rules[a][0], src[a], bw[a][0] > 0, bw[a][1] > 0, max(bw[a]) >= sizes[cm[a][desc["pos"][a]]])
         for a in sorted(bw)
-    ] + ([(dt,)] if dt != "float64" else [])
+    ] + ([(dt,)] if dt != "float64" else []) + ([("nan/inf",)] if desc["data"].get("holes") else [])
     nontrivial = any(max(w) > 0 for w in bw.values())
     ctx.judged(ckey, nontrivial)
     try:
@@ -185,16 +200,16 @@ def run_case(ctx, desc):
         shp[k] = -1
         inhalo = inhalo + h.reshape(shp)
     corner = inhalo >= 2
-    if not np.array_equal(got[inhalo == 0], exp[inhalo == 0]):
+    if not same(got[inhalo == 0], exp[inhalo == 0]):
         ctx.violation("pad-interior", f"original values moved/changed; widths {bw}")
         return
-    if not np.array_equal(got[~corner], exp[~corner]):
+    if not same(got[~corner], exp[~corner]):
         w = np.argwhere((got != exp) & ~corner)[0]
         ctx.violation("pad-halo", f"halo cell {tuple(w)}: got {got[tuple(w)]} expected {exp[tuple(w)]}; rules {rules} widths {bw} src {src}",
                       mechanism=classify(desc, got, da, order, corner))
         return
     if corner.any():
-        ok = any(np.array_equal(got, model(desc, da.values, da.dims, list(p))) for p in itertools.permutations(order))
+        ok = any(same(got, model(desc, da.values, da.dims, list(p))) for p in itertools.permutations(order))
         ctx.judged(("corner",) + tuple(map(tuple, ckey)), True)
         if not ok:
             ctx.violation("pad-corner", f"corner cells match no sequential order; rules {rules} widths {bw}")
@@ -215,7 +230,7 @@ def run_case(ctx, desc):
             rB = pad(da, gB, dict(bw), **kw)
             expB = model(d2, da.values, da.dims, order)
             gotB = rB.transpose(*da.dims).values
-            if gotB.shape != expB.shape or not np.array_equal(gotB[~corner], expB[~corner]):
+            if gotB.shape != expB.shape or not same(gotB[~corner], expB[~corner]):
                 ctx.violation("pad-halo", f"the same per-call options {kw} on a second grid {ctor2} (after a call on {c1}): halo differs from that grid's rules")
                 return
         except Exception as e:
@@ -233,7 +248,7 @@ def run_case(ctx, desc):
         ctx.judged(("respelled-call",) + tuple(map(tuple, ckey)), nontrivial)
         try:
             r2 = pad(da, g, dict(bw), **kw2)
-            if not np.array_equal(r2.transpose(*da.dims).values, got):
+            if not same(r2.transpose(*da.dims).values, got):
                 ctx.violation("spelling-equivalence", f"call scalar {kw} vs mapping {kw2} differ")
         except Exception as e:
             ctx.violation("spelling-equivalence", f"mapping spelling {kw2} raised {type(e).__name__}: {str(e)[:200]}")
@@ -256,7 +271,7 @@ def run_case(ctx, desc):
             d2["ctor"] = ctor2
             _, g2 = c01.make_grid(d2)
             r3 = pad(da, g2, dict(bw), **kw)
-            if not np.array_equal(r3.transpose(*da.dims).values, got):
+            if not same(r3.transpose(*da.dims).values, got):
                 ctx.violation("spelling-equivalence", f"constructor {desc['ctor']} vs {ctor2} differ")
         except Exception as e:
             ctx.violation("spelling-equivalence", f"constructor spelling {ctor2} raised {type(e).__name__}: {str(e)[:200]}")
